@@ -71,10 +71,11 @@ def do_source(rec, hub, U, all_letters, la, regimes, rng, tier):
                         x.sum_to(spellings(U, keep, mode))
                 except Exception:
                     pass
-            try:
-                x.sum_values_to(tuple(keep))
-            except Exception:
-                pass
+            for mode in (0, 1, 2, 3):
+                try:
+                    x.sum_values_to(spellings(U, keep, mode))
+                except Exception:
+                    pass
         # sum_over: all subsets (order irrelevant)
         for k in range(len(la) + 1):
             for over in itertools.combinations(la, k):
@@ -86,10 +87,11 @@ def do_source(rec, hub, U, all_letters, la, regimes, rng, tier):
                             x.sum_over(spellings(U, over, mode))
                     except Exception:
                         pass
-                try:
-                    x.sum_values_over(tuple(over))
-                except Exception:
-                    pass
+                for mode in (0, 1, 2, 3):
+                    try:
+                        x.sum_values_over(spellings(U, over[::-1] if mode % 2 else over, mode))
+                    except Exception:
+                        pass
                 try:
                     sh = x.get_shares_over(tuple(over))
                     if reg in ("tagged", "dyadic") and over:
@@ -137,7 +139,8 @@ def do_source(rec, hub, U, all_letters, la, regimes, rng, tier):
         # unknown dimensions
         others = [l for l in all_letters if l not in la]
         for bad in (others[:1] + ["zz", "nope"]):
-            for f in (lambda: x.sum_to((bad,)), lambda: x.sum_over((bad,)), lambda: x.cumsum(bad), lambda: x.get_shares_over((bad,)),
+            for f in (lambda: x.sum_values_over((bad,)), lambda: x.sum_values_to((bad,)), lambda: x.sum_values_over(tuple(la[:1]) + (bad,)),
+                      lambda: x.sum_to((bad,)), lambda: x.sum_over((bad,)), lambda: x.cumsum(bad), lambda: x.get_shares_over((bad,)),
                       lambda: x.sum_to(tuple(la[:1]) + (bad,))):
                 try:
                     f()
